@@ -57,13 +57,11 @@ SPEC = Spec(
         "every handed-over request is completed (Done.OnDone) EXACTLY at most once - the model's `complete` needs the id in flight. In the "
         "code a second OnDone is not harmless: with wait_for_result it sends on the full capacity-1 blockingDone.ch WHILE HOLDING mu and "
         "blocks the whole queue; without it it double-Puts the pooled object. The batcher's refCountDone/multiDone (C04) are what guarantees it",
-        "the release clause is proved in the reading of its parenthesis: at rest no producer is blocked while nothing is unfinished (memory: "
-        "size = 0); the literal reading 'released as soon as its request fits' is FALSE for the code (one Signal per completion, head-of-line: "
-        "C02_release_on_space_full_fails, corpus case 0 on the real code); C02_drain_releases_all is existential (some schedule), "
-        "'eventually in every run' additionally needs scheduler/mutex fairness and consumers that keep completing",
-        "all clauses are about a RUNNING queue: after Shutdown the memory queue refuses (errQueueIsStopped) a late Offer and a producer "
-        "released from the overflow wait, nothing is accepted any more (C02_nothing_accepted_after_shutdown), and a still-blocked producer "
-        "is not promised a wake-up (corpus case 1 on the real code: left blocked on an empty stopped queue until its context ends)",
+        "the release clause is proved as worded for states at rest (C02_release_on_space_full_holds: whoever is still blocked does not "
+        "fit; space is freed with Broadcast since c2c5f2c26) and after Shutdown nobody stays blocked (c38015a9a); C02_drain_releases_all "
+        "is existential (some schedule), 'eventually in every run' additionally needs scheduler/mutex fairness and consumers that keep completing",
+        "when a Broadcast wakes several producers their re-lock order is the scheduler's: the driver searches the orders (scheduler order "
+        "first, node budget 4000) for the outcome the implementation showed; hidden-state divergence (order of re-registration) is possible in principle",
         "persistent size theorems C02_persistent_size / _size_zero_when_all_finished are for a freshly started (empty) queue; for a queue "
         "restarted on arbitrary storage (stale si snapshot, lowered capacity) only C02_persistent_size_any_start holds: 0 <= size <= "
         "max(capacity, restored size), size <= sum(in flight) whenever nothing is queued, 0 when all finished - on the real code the "
